@@ -125,6 +125,7 @@ type AuthOpts struct {
 	RootDomains    []string // proxy root domains
 	Lifetime       time.Duration
 	Slug           string
+	ProviderType   string // okta (default) | cognito
 }
 
 type AuthEnv struct {
@@ -175,13 +176,20 @@ func NewAuthEnv(o AuthOpts) (*AuthEnv, error) {
 	if o.Lifetime != 0 {
 		c.SessionConfig.SessionLifetimeTTL = o.Lifetime
 	}
-	c.ProviderConfigs[o.Slug] = auth.ProviderConfig{
+	pc := auth.ProviderConfig{
 		ProviderType:       "okta",
 		ProviderSlug:       o.Slug,
 		ClientConfig:       auth.ClientConfig{ID: "idp-client-id", Secret: "idp-client-secret"},
 		OktaProviderConfig: auth.OktaProviderConfig{OrgURL: e.IdP.Addr()},
 		GroupCacheConfig:   c.GroupCacheConfig,
 	}
+	if o.ProviderType == "cognito" {
+		pc.ProviderType = "cognito"
+		pc.OktaProviderConfig = auth.OktaProviderConfig{}
+		pc.AmazonCognitoProviderConfig = auth.AmazonCognitoProviderConfig{OrgURL: e.IdP.Addr(), UserPoolID: "pool", Region: "us-east-1",
+			Credentials: auth.CognitoCredentials{ID: "aws-id", Secret: "aws-secret"}}
+	}
+	c.ProviderConfigs[o.Slug] = pc
 	if err := c.Validate(); err != nil {
 		e.Close()
 		return nil, fmt.Errorf("auth config: %w", err)
